@@ -29,7 +29,27 @@ def ensure_installed():
         _installed[0] = True
 
 
-VALUES = [0, 1, None, '', 'x', [], [1], {}, {'a': 1}, (), 0.0, False, 'a longer string value', list(range(8)), 1000, 2.5, (1, 2), 10 ** 20]
+@dataclasses.dataclass
+class Inner:
+    """a dataclass instance as a field value of another one (a printer must not flatten it into a dict)"""
+    x: int = 0
+
+    def __verif_call__(self):
+        return Call(Inner, (), [('x', self.x)] if self.x != 0 else [])
+
+
+@attr.s
+class InnerAt:
+    y = attr.ib(default='d')
+
+    def __verif_call__(self):
+        return Call(InnerAt, (), [('y', self.y)] if self.y != 'd' else [])
+
+
+Inner.__module__ = InnerAt.__module__ = __name__
+
+VALUES = [0, 1, None, '', 'x', [], [1], {}, {'a': 1}, (), 0.0, False, 'a longer string value', list(range(8)), 1000, 2.5, (1, 2), 10 ** 20,
+          Inner(3), [Inner(), Inner(5)], {'k': InnerAt('z')}, (InnerAt(), 1)]
 
 
 def fresh(v):
@@ -48,6 +68,10 @@ def fresh(v):
         return list(v)
     if isinstance(v, dict):
         return dict(v)
+    if isinstance(v, Inner):
+        return Inner(v.x)
+    if isinstance(v, InnerAt):
+        return InnerAt(v.y)
     return v
 
 FACTORIES = [list, dict, set, lambda: [1]]
@@ -67,7 +91,7 @@ def gen_class(rng, idx):
             fields.append((nm, 'none', None, None, True))      # a required field hidden from the repr could never be rebuilt
         elif r < 0.75:
             seen_default = True
-            fields.append((nm, 'default', rng.choice(VALUES[:5] + [(), 0.0, False, 1000, 2.5, (1, 2), 10 ** 20, 'a longer string value']), None, rng.random() < 0.85))
+            fields.append((nm, 'default', rng.choice(VALUES[:5] + [(), 0.0, False, 1000, 2.5, (1, 2), 10 ** 20, 'a longer string value', Inner(3), InnerAt()]), None, rng.random() < 0.85))
         else:
             seen_default = True
             fields.append((nm, 'factory', None, rng.randrange(len(FACTORIES)), rng.random() < 0.85))
